@@ -1,6 +1,11 @@
 // decomposeFloat (the digit extraction behind writeFloat) with the power-of-ten normalisation cut
 #include "common.hpp"
+static Arena arena;
 W void w_decomp(double x, int places, uint32_t* out) {
   FloatParts p = decomposeFloat(x, (int8_t)places);
   out[0] = p.integral; out[1] = p.decimal; out[2] = (uint32_t)(int32_t)p.exponent; out[3] = (uint32_t)(int32_t)p.decimalPlaces;
 }
+// doc.set(x) then serializeJson: which digits reach the writer (writeInteger<uint32_t> / writeDecimals are cut; they are
+// decided for all values by wi_u32 / wdec_w*)
+W size_t w_ser_f64(double x, char* out, size_t cap) { arena.reset(); JsonDocument doc(&arena); doc.set(x); return serializeJson(doc, out, cap); }
+W size_t w_ser_f32(float x, char* out, size_t cap) { arena.reset(); JsonDocument doc(&arena); doc.set(x); return serializeJson(doc, out, cap); }
